@@ -345,6 +345,33 @@ def ctor_checks(acc, rng):
         if check_output(acc, 'DDMAngle', 'DDM', o, Tx, inp):
             all_hops(acc, 'DDM', o, Tx, inp)
 
+    # the same objects written as text ('±DDD MM SS.SSS' / '±DDD MM.MMM', the constructors' documented alternative form), the
+    # numbers written the way Python prints them — a small seconds / minutes field comes out in exponent form (1e-05)
+    s2 = rng.choice([s, s, 10 ** rng.uniform(-9, -4.01), rng.choice([1e-05, 5e-07, 2.5e-09, 9.99e-05])])
+    T2 = d * 3600 + m * 60 + Fr(s2)
+    for sign, Tx in (('', T2), ('-', -T2)):
+        text = f'{sign}{d} {m} {s2!r}'
+        inp = f'DMSAngle({text!r})'
+        try:
+            o = A.DMSAngle(text)
+        except Exception as e:  # noqa
+            acc.violation('DMSAngle:raises', 'value', inp, type(e).__name__, 'an object', 'DMSAngle')
+            continue
+        if check_output(acc, 'DMSAngle', 'DMS', o, Tx, inp):
+            all_hops(acc, 'DMS', o, Tx, inp)
+    mm2 = rng.choice([mm, m + s2 / 60, 10 ** rng.uniform(-9, -4.01)])
+    Tm2 = d * 3600 + Fr(mm2) * 60
+    for sign, Tx in (('', Tm2), ('-', -Tm2)):
+        text = f'{sign}{d} {mm2!r}'
+        inp = f'DDMAngle({text!r})'
+        try:
+            o = A.DDMAngle(text)
+        except Exception as e:  # noqa
+            acc.violation('DDMAngle:raises', 'value', inp, type(e).__name__, 'an object', 'DDMAngle')
+            continue
+        if check_output(acc, 'DDMAngle', 'DDM', o, Tx, inp):
+            all_hops(acc, 'DDM', o, Tx, inp)
+
 
 # ------------------------------------------------------------------ lattice worker (thorough)
 def lattice_degree(d):
